@@ -51,20 +51,19 @@ def judge_output(out, lang, assign, by_name, x_ends_in_token=True):
             continue
         lead = line[:len(line) - len(line.lstrip(b' \t'))]
         is_pp_first = li.get('pp_first', False) or stripped.startswith((b'__pragma', b'_Pragma'))
-        if li['pp'] and not is_pp_first:
-            continue            # continuation line of a directive: governed by the alignment of the continuation, not judged
-        mode = ppt if is_pp_first else iwt
-        if is_pp_first:
+        pp_cont = li['pp'] and not is_pp_first
+        mode = ppt if (is_pp_first or pp_cont) else iwt
+        if is_pp_first or pp_cont:
             st['pp_judged'] += 1
         else:
             st['lead_judged'] += 1
-        cls = 'pp' if is_pp_first else ('comment-line' if stripped.startswith((b'//', b'/*', b'/+')) else 'code-line')
+        cls = 'pp' if is_pp_first else 'pp-continuation' if pp_cont else ('comment-line' if stripped.startswith((b'//', b'/*', b'/+')) else 'code-line')
         if mode == 0 and b'\t' in lead:
             v.append(('tab-in-indent|' + cls, 'line %d: tab in the leading whitespace with %s=0: %r' % (
-                k + 1, 'pp_indent_with_tabs' if is_pp_first else 'indent_with_tabs', line[:40])))
+                k + 1, 'pp_indent_with_tabs' if (is_pp_first or pp_cont) else 'indent_with_tabs', line[:40])))
         elif mode in (1, 2) and b' \t' in lead:
             v.append(('space-before-tab|' + cls, 'line %d: a space precedes a tab in the indentation with %s=%d: %r' % (
-                k + 1, 'pp_indent_with_tabs' if is_pp_first else 'indent_with_tabs', mode, line[:40])))
+                k + 1, 'pp_indent_with_tabs' if (is_pp_first or pp_cont) else 'indent_with_tabs', mode, line[:40])))
     # --- end of file
     eo = eff(assign, by_name, 'nl_end_of_file')
     mn = int(eff(assign, by_name, 'nl_end_of_file_min'))
